@@ -216,8 +216,16 @@ func appendSnapshotFlavors(b []byte, s *slip.Scope) []byte {
 			fa = append(fa, f)
 		}
 	}
+	// A flavor inherits strictly more flavors than any flavor it inherits
+	// so ordering by that count, then by name, places every flavor after
+	// the flavors it inherits from. "Inherits" alone is not an ordering
+	// sort.Slice can use since unrelated flavors would all be equivalent.
 	sort.Slice(fa, func(i, j int) bool {
-		return fa[j].Inherits(fa[i])
+		ni, nj := len(fa[i].InheritsList()), len(fa[j].InheritsList())
+		if ni != nj {
+			return ni < nj
+		}
+		return fa[i].Name() < fa[j].Name()
 	})
 	for _, f := range fa {
 		b = append(b, '\n')
